@@ -10,6 +10,7 @@ import (
 	"time"
 
 	"github.com/pion/interceptor"
+	"github.com/pion/interceptor/internal/verifhook"
 	"github.com/pion/logging"
 	"github.com/pion/rtcp"
 )
@@ -163,6 +164,7 @@ func (n *GeneratorInterceptor) loop(rtcpWriter interceptor.RTCPWriter) {
 	for {
 		select {
 		case <-ticker.C:
+			verifhook.Gate("nack.generator.tick", n)
 			// save NACKs to send without holding the mutex during Write
 			var toSend []rtcp.Packet
 
